@@ -613,3 +613,49 @@ _add("C20", "compatible retypings are reported (compatibleRetypeSeverity re-extr
             "schemas against the schema built from their own SDL; defaults enter the model as GraphQL values of their position (gql_canon_default, independent "
             "of the library's printer).",
      "Known findings G1, G4 (pinned). Repaired: G2, G3, G5, Python-equal defaults, subclass kinds, hash-dependent order, defaults as GraphQL values.")
+
+
+# ---------------------------------------------------------------------------------------------------------------
+# State of the tree after the builder rounds co / co2 (C07, C10, C15): what the texts above do not say yet.
+# ---------------------------------------------------------------------------------------------------------------
+def _now(k, text=None, note=None, technique=None):
+    if text:
+        CHECKS[k]["text"] = CHECKS[k]["text"].rstrip() + " AS BUILT NOW: " + text
+    if note:
+        CHECKS[k]["note"] = CHECKS[k].get("note", "").rstrip() + " " + note
+    if technique:
+        CHECKS[k]["technique"] = technique
+
+
+_now("C07",
+     "model files Coerce.lean / CoerceExec.lean / PyNum.lean, specification Spec/Coerce.lean (Conforms). The route-equivalence headline is now "
+     "literal_variable_equiv_at / literal_variable_equiv_total_at (per TYPE: the two parsers of a custom scalar have to agree only at the custom-scalar "
+     "positions reachable from the type, CustomAgreeOn reg (Reach reg ty)), unconditional for types and schemas without custom scalars "
+     "(literal_variable_equiv_builtin, _no_custom, same_arguments_builtin, builtin_scalars_agree); customAgree_necessary and default_scalar_routes_differ "
+     "show the hypothesis cannot be dropped (finding A10). literal_variable_equiv_partial keeps 'natural JSON kind' explicit: "
+     "literal_variable_equiv_refuted_cross_kind / rejects_cross_kind_refuted are the machine-checked witnesses of finding A8 (lenient built-in parsers, "
+     "pinned by the suite). The history stream has a DETERMINISTIC derivation probe (det_probe: fixed clone / extend / camel-case / visibility plans on a "
+     "fixed schema with enums keyed by internal value, python-named input fields and defaults; fixed requests through every derived schema).",
+     "Only exercised, not modelled: the schema-derivation operations themselves (C14's model), resolver memoisation per (field definition, node). Code-first "
+     "input-object defaults are compared as declared (see the C07 entry of DESIGN.md section 5 for the nested-default residue).",
+     "Lean 4 proof (coercion soundness, per-type route equivalence, never-raises, before-resolver trace over response trees) + source-translated scalar "
+     "branches + resolver-kwargs correspondence incl. derived schemas")
+_now("C10",
+     "model file Response.lean (+ Generated/ResponseKeys.lean), specification Spec/ResponseSpec.lean (WellFormedK with the column key as a parameter), "
+     "Spec/NullSites.lean, Spec/TreeOk.lean. Headlines: response_wellformed_unless_syntax_error (section 7.1 AS WRITTEN for every request that parses), "
+     "response_wellformed_partial (syntax errors: well-formed up to the extracted key) and full_statement_refuted (finding X1: the only departure); "
+     "extensions_passed_through / no_extensions_invented (resolver-supplied extensions reach the response unchanged and nothing else produces the key), "
+     "only_lf_cr_end_lines (index_to_loc starts a line at LF, CR, CRLF only: the deterministic `linechars` class sends every other Unicode line "
+     "separator in front of an error position).",
+     "StagesOk / StagesTyped are hypotheses about the outcomes of the other stages (positions of error nodes inside the text, exception classes); "
+     "see the obligations list for what is discharged from the stage models.")
+_now("C15",
+     "model files Introspect.lean / IntrospectPrims.lean (+ Generated/Introspection.lean), specification Spec/Introspect.lean (decoder "
+     "schemaOfIntrospection, observable normal form norm). Exactness theorems next to introspect_lossless: interface_possible_types_exact / "
+     "interfaces_possible_types_dual / object_interfaces_exact / possible_types_null_elsewhere (possibleTypes of an interface = exactly the objects "
+     "that declare it, and null for every other kind), deprecation_reason_exact, directive_keys_june2018, default_string_reads_back_iff (a plain "
+     "String / ID default reads back IFF it has no control character other than TAB / LF / CR: the exact boundary of finding I1's residue). "
+     "Deterministic class eq-colliding: defaults and enum internal values 1 / True / 1.0 / 0 / False / 0.0 on one JSON-like scalar and one enum, "
+     "two schemas sharing the type objects, introspected in one process with a type-strict round-trip oracle.",
+     "Known findings I5 (VARIABLE_DEFINITION is not a member of __DirectiveLocation), I10. The decoder reads possibleTypes into the description for "
+     "unions only (interfaces: separate theorems).")
